@@ -361,7 +361,9 @@ def run(repo, chk):
     from . import c09, c02
     chk.rule('C01.V1', 'value lowerings shared with C09/C04: unary operators, strict 0/1 bool normalisation, byte access / widening, '
                        'element index scaling at every word size')
-    c09.run(repo, Remap(chk, {'C09.M2': 'C01.E1', 'C09.M3': 'C01.V1', 'C09.M4': 'C01.V1'}))
+    # (the operator rows of C09.M1 too: the instruction each operator maps to, the inverse of each conditional halt, what each
+    # accessor's get / set / to emits and how each instruction is rendered - a sequential program depends on every one of them)
+    c09.run(repo, Remap(chk, {'C09.M1': 'C01.V1', 'C09.M2': 'C01.E1', 'C09.M3': 'C01.V1', 'C09.M4': 'C01.V1'}))
     from . import c04, c16
     c04._scale(repo, Remap(chk, {'C04.A4': 'C01.V1'}), gf)
     chk.rule('C01.X1', 'statements are generated iff reachable: the exit-mode analysis never drops code that can run (shared with C16.E1/E2/E3)')
